@@ -253,6 +253,8 @@ def script(args: typing.List[str], witness: bool = False) -> bytes:
                 else:
                     raise ValueError("too much data to push!")
                 op_push += data_len.to_bytes(no_bytes, "little")
+            elif witness:
+                op_push = bits.compact_size_uint(data_len)
             else:
                 op_push = len(data).to_bytes(1, "little")
             scriptbytes += op_push
@@ -279,20 +281,18 @@ def decode_script(
     if witness:
         witness_stack_len, scriptbytes = bits.parse_compact_size_uint(scriptbytes)
         parsed_bytes = bits.compact_size_uint(witness_stack_len)
+        for _ in range(witness_stack_len):
+            push, data = bits.parse_compact_size_uint(scriptbytes)
+            assert len(data) >= push, "witness item truncated"
+            parsed_bytes += scriptbytes[: len(scriptbytes) - len(data) + push]
+            decoded.append(data[:push].hex())
+            scriptbytes = data[push:]
+        if parse:
+            return parsed_bytes, scriptbytes
+        return decoded, scriptbytes
 
     while scriptbytes:
-        if witness:
-            push = scriptbytes[0]
-            data = scriptbytes[1 : 1 + push]
-            parsed_bytes += scriptbytes[: 1 + push]
-            decoded.append(data.hex())
-            scriptbytes = scriptbytes[1 + push :]
-            witness_stack_len -= 1
-            if not witness_stack_len:
-                if parse:
-                    return parsed_bytes, scriptbytes
-                return decoded, scriptbytes
-        elif scriptbytes[0] in range(1, 0x4C):
+        if scriptbytes[0] in range(1, 0x4C):
             push = scriptbytes[0]
             data = scriptbytes[1 : 1 + push]
             decoded.append(data.hex())
@@ -315,9 +315,4 @@ def decode_script(
                 scriptbytes = scriptbytes[4 + push :]
             else:
                 decoded.append(op)
-            # below if is unreachable?
-            if witness:
-                witness_stack_len -= 1
-            if witness and not witness_stack_len:
-                return decoded, scriptbytes
     return decoded
